@@ -1153,6 +1153,13 @@ class Consumer : public ASTConsumer
             X.PendingLambdas.pop_back();
             if (L->doesThisDeclarationHaveABody() && !L->isDependentContext())
                 X.emitFunction(L);
+            else if (const FunctionTemplateDecl* FT = L->getDescribedFunctionTemplate())
+            {
+                // generic lambda: export the instantiated call operators
+                for (const FunctionDecl* SP : FT->specializations())
+                    if (SP->doesThisDeclarationHaveABody() && !SP->isDependentContext())
+                        X.emitFunction(SP);
+            }
         }
         J.arrayEnd();
         J.attributeEnd();
